@@ -933,6 +933,105 @@ def malformed_cases(field_kinds):
     return out
 
 
+# ---------------- plugins whose process_schema rewrites the schema ----------------
+PLUGIN_SCHEMA = """
+type Query { user(id: Int): User internalStats: Int hello: String }
+type User { id: ID! name: String }
+"""
+PLUGIN_SRC = {
+    "remove_field": """
+from ariadne_codegen.plugins.base import Plugin
+
+
+class P(Plugin):
+    def process_schema(self, schema):
+        schema.query_type.fields.pop("internalStats", None)
+        return schema
+""",
+    "change_arg_type": """
+from graphql import GraphQLArgument, GraphQLID, GraphQLNonNull
+
+from ariadne_codegen.plugins.base import Plugin
+
+
+class P(Plugin):
+    def process_schema(self, schema):
+        schema.query_type.fields["user"].args["id"] = GraphQLArgument(GraphQLNonNull(GraphQLID))
+        return schema
+""",
+    "add_field": """
+from graphql import GraphQLField, GraphQLInt
+
+from ariadne_codegen.plugins.base import Plugin
+
+
+class P(Plugin):
+    def process_schema(self, schema):
+        schema.query_type.fields["extraCount"] = GraphQLField(GraphQLInt)
+        return schema
+""",
+    "identity": """
+from ariadne_codegen.plugins.base import Plugin
+
+
+class P(Plugin):
+    def process_schema(self, schema):
+        return schema
+""",
+}
+PLUGIN_OPS = {  # name -> (query, valid before process_schema?, names to be mentioned when invalid)
+    "select-removed": ("query A { internalStats }", ["internalStats"]),
+    "int-variable": ("query A($id: Int) { user(id: $id) { id } }", ["$id"]),
+    "id-variable": ("query A($id: ID!) { user(id: $id) { id } }", ["$id"]),
+    "select-added": ("query A { extraCount }", ["extraCount"]),
+    "plain": ("query A { hello }", []),
+}
+# (plugin, operation) -> is the operation valid for the schema the generator uses (after process_schema)?
+PLUGIN_EXPECT = {
+    ("remove_field", "select-removed"): False, ("remove_field", "plain"): True, ("remove_field", "int-variable"): True,
+    ("change_arg_type", "int-variable"): False, ("change_arg_type", "id-variable"): True, ("change_arg_type", "plain"): True,
+    ("add_field", "select-added"): True, ("add_field", "plain"): True, ("add_field", "select-removed"): True,
+    ("identity", "select-removed"): True, ("identity", "int-variable"): True, ("identity", "id-variable"): False,
+    ("identity", "select-added"): False,
+}
+_PLUGIN_COUNTER = [0]
+
+
+def plugin_schema_cases():
+    out = []
+    for (plugin, opname), ok in PLUGIN_EXPECT.items():
+        for pre in ((False, True) if not ok else (False,)):
+            _PLUGIN_COUNTER[0] += 1
+            mod = f"c17_plugin_{plugin}_{_PLUGIN_COUNTER[0]}"
+            c = base_case()
+            c["files"]["schema.graphql"] = PLUGIN_SCHEMA
+            c["files"]["queries.graphql"] = PLUGIN_OPS[opname][0] + "\n"
+            c["files"][mod + ".py"] = PLUGIN_SRC[plugin]
+            sec(c)["plugins"] = [mod + ".P"]
+            c["local_plugins"] = True
+            if pre:
+                o_preexisting(c)
+            c.update({"id": f"plugin-schema/{plugin}/{opname}" + ("+pre" if pre else ""),
+                      "expect": "valid" if ok else "invalid", "names": [] if ok else PLUGIN_OPS[opname][1], "cls": None,
+                      "group": "plugin-schema", "kind": f"{plugin}/{opname}", "opts": ["plugin"]})
+            out.append(c)
+    # two plugins in order: the first hides the field, the second would need it (order of process_schema)
+    _PLUGIN_COUNTER[0] += 1
+    m1, m2 = f"c17_plugin_a_{_PLUGIN_COUNTER[0]}", f"c17_plugin_b_{_PLUGIN_COUNTER[0]}"
+    c = base_case()
+    c["files"]["schema.graphql"] = PLUGIN_SCHEMA
+    c["files"]["queries.graphql"] = "query A { internalStats extraCount }\n"
+    c["files"][m1 + ".py"] = PLUGIN_SRC["add_field"]
+    c["files"][m2 + ".py"] = PLUGIN_SRC["remove_field"]
+    sec(c)["plugins"] = [m1 + ".P", m2 + ".P"]
+    c["local_plugins"] = True
+    o_preexisting(c)
+    c.update({"id": "plugin-schema/add-then-remove/select-both", "expect": "invalid", "names": ["internalStats"], "cls": None,
+              "group": "plugin-schema", "kind": "two-plugins", "opts": ["plugin"]})
+    out.append(c)
+    return out
+
+
 def section_cases():
     out = []
     c = base_case()
